@@ -2,80 +2,93 @@
 (***************************************************************************)
 (* CONTRACT specification of originium's transactional API.                *)
 (*                                                                         *)
-(* The only state is the commit order (a sequence of write maps) plus, per *)
-(* client ("worker"), the transaction it currently runs.  Every API call   *)
-(* is an invocation/response pair; Begin and Commit take effect at one     *)
-(* instant between the two (BeginResp chooses it, LPCommit is it).         *)
-(* Nothing of the engine (memtables, wal, tables, timestamps, watermarks)  *)
-(* appears here: this module is what properties C01, C02-C08 and the       *)
-(* "result allowed" part of C12 *say*; verdicts are computed against it.   *)
+(* The state is the committed key-value map plus, per client ("worker"),   *)
+(* the transaction it currently runs: its snapshot (a copy of the map as   *)
+(* it was at the linearization point of Begin), the keys committed by      *)
+(* others since then, its store-read set and its write buffer.  Every API  *)
+(* call is an invocation/response pair; Begin and Commit take effect at    *)
+(* one instant between the two.  Nothing of the engine (memtables, wal,    *)
+(* tables, timestamps, watermarks) appears here: this module is what       *)
+(* properties C01, C02-C08 and the "result allowed" part of C12 *say*;     *)
+(* verdicts are computed against it.                                       *)
 (*                                                                         *)
-(*   C05  Get = own write, else value as of the snapshot fixed at LPBegin  *)
+(*   C05  Get = own write, else the value in the snapshot fixed at Begin   *)
 (*   C06  acceptance of a history by this module = strict serializability  *)
 (*        with the commit order as the serial order                        *)
 (*   C07  LPCommit refuses exactly when a store-read key was overwritten   *)
-(*   C08  refused / discarded / failed transactions never reach `commits`; *)
+(*   C08  refused / discarded / failed transactions never reach `cur`;     *)
 (*        misuse has a fixed answer and no effect                          *)
-(*   C02/C03/C04/C14  Close, Crash, Open: the commit order survives; a     *)
+(*   C02/C03/C04/C14  Close, Crash, Open: the committed map survives; a    *)
 (*        commit in flight at a crash is applied whole or not at all       *)
+(*                                                                         *)
+(* The state deliberately keeps no history: two linearizations that cannot *)
+(* be told apart by any later call lead to the same state, which keeps the *)
+(* search over unobservable linearization points small (trace validation). *)
 (***************************************************************************)
 EXTENDS Integers, Sequences, FiniteSets
 
 CONSTANTS Workers,          \* client identities
-          Keys,             \* key identities (ordered integers)
+          Keys,             \* key identities
           AtomicInflight,   \* TRUE: C04 reading (whole or nothing); FALSE: C03 reading (per key)
           ExactConflict     \* TRUE: C07 reading (iff); FALSE: a refusal is always allowed (C06 only)
 
-VARIABLES commits,          \* Seq([Keys -> Val \cup {Unw}])   the commit order
+VARIABLES cur,              \* [Keys -> Val]: the committed state (Gone = deleted / never written)
           ws,               \* per worker: the transaction it runs
           up                \* TRUE while a DB handle is open
 
-avars == <<commits, ws, up>>
+avars == <<cur, ws, up>>
 
-Unw  == -1                  \* "key not written by this transaction / commit"
+Unw  == -1                  \* "key not written by this transaction"
 Gone == 0                   \* deleted or never written
 
-Idle == [st |-> "idle", upd |-> FALSE, snap |-> 0, reads |-> {},
-         w |-> [k \in Keys |-> Unw], res |-> "none"]
+NoW  == [k \in Keys |-> Unw]
+Idle == [st |-> "idle", upd |-> FALSE, frozen |-> FALSE, view |-> [k \in Keys |-> Gone], dirty |-> {},
+         reads |-> {}, w |-> NoW, res |-> "none"]
 \* a finished transaction remembers only that it is finished and whether it was read-only
 Done(x) == [Idle EXCEPT !.st = "done", !.upd = ws[x].upd]
 
-AInit == /\ commits = <<>>
+AInit == /\ cur = [k \in Keys |-> Gone]
          /\ ws = [x \in Workers |-> Idle]
          /\ up = TRUE
 
-RECURSIVE ValAt(_, _)
-\* value of key k after the first n commits
-ValAt(k, n) == IF n = 0 THEN Gone
-               ELSE IF commits[n][k] # Unw THEN commits[n][k] ELSE ValAt(k, n - 1)
-
 WKeys(m)  == {k \in Keys : m[k] # Unw}
 HasW(x)   == WKeys(ws[x].w) # {}
+Overlay(m, base) == [k \in Keys |-> IF m[k] # Unw THEN m[k] ELSE base[k]]
 
 \* what a Get must return (C05)
 GetVal(x, k) == IF ws[x].st # "active" THEN Gone                       \* finished txn: logged error, not found
                 ELSE IF ws[x].upd /\ ws[x].w[k] # Unw THEN ws[x].w[k]   \* own write (Gone for own delete)
-                ELSE ValAt(k, ws[x].snap)
+                ELSE ws[x].view[k]
 
-\* the exact conflict rule (C07)
-Conflict(x) == \E i \in (ws[x].snap + 1)..Len(commits) :
-                  \E k \in ws[x].reads : commits[i][k] # Unw
+\* the exact conflict rule (C07): a store-read key was committed by someone after the snapshot
+Conflict(x) == ws[x].reads \cap ws[x].dirty # {}
+
+\* a commit with write map m is linearized now.  Every transaction whose snapshot is already
+\* fixed notes the keys as dirty.  A Begin that is in progress either has its linearization
+\* point before this commit (it is in F: its snapshot freezes as it is) or after it (its
+\* snapshot follows the committed state).
+Linearize(m, F) ==
+    [x \in Workers |->
+        IF ws[x].st = "beginning" /\ ~ws[x].frozen
+        THEN IF x \in F THEN [ws[x] EXCEPT !.frozen = TRUE, !.dirty = WKeys(m)]
+             ELSE [ws[x] EXCEPT !.view = Overlay(m, cur)]
+        ELSE IF ws[x].st \in {"beginning", "active", "committing"}
+             THEN [ws[x] EXCEPT !.dirty = @ \cup WKeys(m)]
+             ELSE ws[x]]
+Beginning == {x \in Workers : ws[x].st = "beginning" /\ ~ws[x].frozen}
 
 ----------------------------------------------------------------------------
 BeginInv(x, upd) ==
     /\ up
     /\ ws[x].st \in {"idle", "done"}
-    /\ ws' = [ws EXCEPT ![x] = [Idle EXCEPT !.st = "beginning", !.upd = upd, !.snap = Len(commits)]]
-    /\ UNCHANGED <<commits, up>>
+    /\ ws' = [ws EXCEPT ![x] = [Idle EXCEPT !.st = "beginning", !.upd = upd, !.view = cur]]
+    /\ UNCHANGED <<cur, up>>
 
-\* The snapshot is fixed at some instant between the invocation and the response of Begin
-\* (the linearization point of Begin): it is the length the commit order had at that instant,
-\* i.e. any value between its length at the invocation (kept in snap meanwhile) and now.
+\* if the snapshot has not been frozen by a later commit it is the state as of now
 BeginResp(x) ==
     /\ ws[x].st = "beginning"
-    /\ \E s \in ws[x].snap..Len(commits) :
-          ws' = [ws EXCEPT ![x].st = "active", ![x].snap = s]
-    /\ UNCHANGED <<commits, up>>
+    /\ ws' = [ws EXCEPT ![x].st = "active", ![x].frozen = TRUE]
+    /\ UNCHANGED <<cur, up>>
 
 \* v is the value the implementation returned (Gone = not found)
 Get(x, k, v) ==
@@ -84,7 +97,7 @@ Get(x, k, v) ==
     /\ ws' = [ws EXCEPT ![x].reads =
                  IF ws[x].st = "active" /\ ws[x].upd /\ ws[x].w[k] = Unw
                  THEN @ \cup {k} ELSE @]
-    /\ UNCHANGED <<commits, up>>
+    /\ UNCHANGED <<cur, up>>
 
 \* Set (v > 0) or Delete (v = Gone); res is the error the call returned
 PutRes(x) == IF ~ws[x].upd THEN "readonly"                  \* read-only is tested first
@@ -95,9 +108,9 @@ Put(x, k, v, res) ==
     /\ ws[x].st \in {"active", "done"}
     /\ res = PutRes(x)
     /\ ws' = IF res = "ok" THEN [ws EXCEPT ![x].w[k] = v] ELSE ws
-    /\ UNCHANGED <<commits, up>>
+    /\ UNCHANGED <<cur, up>>
 
-\* a call with the empty key: documented error, no effect (key is not in Keys)
+\* a call with the empty key: documented error, no effect (the empty key is not in Keys)
 PutEmptyKey(x, res) ==
     /\ ws[x].st \in {"active", "done"}
     /\ res = (IF PutRes(x) = "ok" THEN "emptykey" ELSE PutRes(x))
@@ -106,7 +119,7 @@ PutEmptyKey(x, res) ==
 Discard(x) ==
     /\ ws[x].st \in {"active", "done"}
     /\ ws' = [ws EXCEPT ![x] = Done(x)]
-    /\ UNCHANGED <<commits, up>>
+    /\ UNCHANGED <<cur, up>>
 
 \* Commit of a finished transaction: documented error.  Commit without writes (read-only
 \* transactions included): always succeeds, no effect, nothing to linearize.
@@ -115,23 +128,25 @@ CommitInv(x) ==
     /\ ws' = [ws EXCEPT ![x].st = IF ws[x].st = "done" \/ ~HasW(x) THEN "decided" ELSE "committing",
                         ![x].res = IF ws[x].st = "done" THEN "discarded"
                                    ELSE IF ~HasW(x) THEN "ok" ELSE "none"]
-    /\ UNCHANGED <<commits, up>>
+    /\ UNCHANGED <<cur, up>>
 
-LPCommit(x) ==                                    \* internal: validate and apply atomically
+\* internal: validate and apply atomically (the linearization point of Commit)
+LPCommit(x) ==
     /\ ws[x].st = "committing"
     /\ \/ /\ Conflict(x) \/ ~ExactConflict
           /\ ws' = [ws EXCEPT ![x].st = "decided", ![x].res = "conflict"]
-          /\ UNCHANGED commits
+          /\ UNCHANGED cur
        \/ /\ ~Conflict(x)
-          /\ ws' = [ws EXCEPT ![x].st = "decided", ![x].res = "ok"]
-          /\ commits' = Append(commits, ws[x].w)
+          /\ \E F \in SUBSET Beginning :
+                ws' = [Linearize(ws[x].w, F) EXCEPT ![x].st = "decided", ![x].res = "ok"]
+          /\ cur' = Overlay(ws[x].w, cur)
     /\ UNCHANGED up
 
 CommitResp(x, res) ==
     /\ ws[x].st = "decided"
     /\ ws[x].res = res
     /\ ws' = [ws EXCEPT ![x] = Done(x)]
-    /\ UNCHANGED <<commits, up>>
+    /\ UNCHANGED <<cur, up>>
 
 \* View/Update after Close: ErrDBClosed, the closure is not run
 ClosedCall(x, res) ==
@@ -143,12 +158,12 @@ Close ==
     /\ up
     /\ \A x \in Workers : ws[x].st \in {"idle", "done"}      \* C15: no call in flight
     /\ up' = FALSE
-    /\ UNCHANGED <<commits, ws>>
+    /\ UNCHANGED <<cur, ws>>
 
-\* process crash.  A commit whose LPCommit has been taken is in `commits` (it may or may
-\* may not have been acknowledged); one whose LPCommit has not been taken is not.  With
-\* AtomicInflight = FALSE (the per-key reading of C03) the commit that was being applied may
-\* additionally survive for a strict non-empty subset of its keys.
+\* process crash.  A commit whose LPCommit has been taken is in `cur` (it may or may not
+\* have been acknowledged); one whose LPCommit has not been taken is not.  With AtomicInflight
+\* = FALSE (the per-key reading of C03) the commit that was being applied may additionally
+\* survive for a strict non-empty subset of its keys.
 Partial(x) == IF AtomicInflight \/ ws[x].st # "committing" \/ ~HasW(x) \/ Conflict(x)
               THEN {}
               ELSE {[k \in Keys |-> IF k \in S THEN ws[x].w[k] ELSE Unw] :
@@ -157,13 +172,13 @@ Partial(x) == IF AtomicInflight \/ ws[x].st # "committing" \/ ~HasW(x) \/ Confli
 Crash ==
     /\ up' = FALSE
     /\ ws' = [x \in Workers |-> Idle]
-    /\ \/ UNCHANGED commits
-       \/ \E x \in Workers : \E m \in Partial(x) : commits' = Append(commits, m)
+    /\ \/ UNCHANGED cur
+       \/ \E x \in Workers : \E m \in Partial(x) : cur' = Overlay(m, cur)
 
 Open ==
     /\ ~up
     /\ up' = TRUE
     /\ ws' = [x \in Workers |-> Idle]
-    /\ UNCHANGED commits
+    /\ UNCHANGED cur
 
 =============================================================================
